@@ -30,6 +30,7 @@ import Distill.Model.MarkupPage
 import Distill.Model.Srcset
 import Distill.Model.AbsURL
 import Distill.Model.Style
+import Distill.Model.Candidates
 namespace Distill.Slices
 open Distill Distill.Proto
 
@@ -307,6 +308,13 @@ def wordcounterSlice : P String := do
   let c := selectCounter sample.toList
   let name := match c with | .full => "Full" | .letter => "Letter" | .fast => "Fast"
   pure s!"{name} {c.count text.toList}"
+
+/-- `candidates class id rel itemprop text` → the unlikely / maybe / byline answers -/
+def candidatesSlice : P String := do
+  let cls ← str; let id ← str; let rel ← str; let ip ← str; let text ← str
+  match Cand.answers cls id rel ip text with
+  | some a => pure s!"{if a.unlikely then 1 else 0}{if a.maybe then 1 else 0}{if a.byline then 1 else 0}"
+  | none => pure "pattern-not-an-alternation-of-words"
 
 /-- `style value` → what `GetDisplayStyle` takes from the attribute (`-` = tag default) and
 `rxVisibilityHidden.MatchString` -/
@@ -684,6 +692,7 @@ def dispatch (slice : String) : Option (P String) :=
   | "srcset" => some srcsetSlice
   | "createabs" => some createabsSlice
   | "style" => some styleSlice
+  | "candidates" => some candidatesSlice
   | "strip" => some stripSlice
   | "title" => some titleSlice
   | "textblocks" => some textblocksSlice
